@@ -294,7 +294,7 @@ func (s *Scanner) findLineEnd() bool {
 			}
 		}
 		s.skipWhitespace() // s.insertSemi is set
-		if s.ch < 0 || s.ch == '\n' {
+		if s.ch < 0 || s.ch == '\n' || s.ch == '#' { // a #-style comment always extends to the line end
 			return true
 		}
 		if s.ch != '/' {
